@@ -101,14 +101,16 @@ func seqFixedKey() []byte {
 
 var seqJunkKey = []byte("not a key") // ImportPrivateKey must refuse it; whatever it does, a saved key must survive
 
-// seqAlphabet. One directory: create, load, export, import of a fixed key, export→import in place (re-encrypt under
-// another passphrase), each with every passphrase; junk import; delete by hand. Two directories: create, load, export
-// on each with every passphrase, export(src)→import(dst) for both ordered pairs with every passphrase, junk import and
-// delete on each (import of a fixed key and in-place re-encryption are left to the one-directory enumeration).
-func seqAlphabet(dirs, passes []string) []seqOp {
+// seqAlphabet. One directory: create, load, export, export→import in place (re-encrypt under another passphrase), each
+// with every passphrase; junk import; delete by hand; with importFixed also the import of a fixed harness-made key
+// with every passphrase (thorough tier: a directory whose FIRST key is an imported one; the quick tier reaches imported
+// keys through export→import in both searches). Two directories: create, load, export on each with every passphrase,
+// export(src)→import(dst) for both ordered pairs with every passphrase, junk import and delete on each (in-place
+// re-encryption is left to the one-directory enumeration).
+func seqAlphabet(dirs, passes []string, importFixed bool) []seqOp {
 	var out []seqOp
 	kinds := []string{"create", "load", "export"}
-	if len(dirs) == 1 {
+	if importFixed {
 		kinds = append(kinds, "import-fixed")
 	}
 	for _, d := range dirs {
@@ -727,7 +729,7 @@ type seqBFSResult struct {
 // seqTwoDirSearch: explicit-state search over histories on two directories.
 func seqTwoDirSearch(r *vf.Run, root string, passes []string, depth, workers int, deadline time.Duration, tally func(vf.Violation), sample func(string)) seqBFSResult {
 	dirs := []string{"a", "b"}
-	alpha := seqAlphabet(dirs, passes)
+	alpha := seqAlphabet(dirs, passes, false)
 	res := seqBFSResult{alphabet: alphabetNames(alpha), depth: depth}
 	var nontriv, executed atomic.Int64
 	var mu sync.Mutex
